@@ -8,6 +8,7 @@ import HtpModel.Lemmas.OutConsumed
 import HtpModel.Lemmas.Owed
 import HtpModel.Lemmas.OwedOut
 import HtpModel.Pinned.Eq
+import HtpModel.Lemmas.History
 
 namespace Htp.C09
 open Htp.Conn Htp.Gen
@@ -249,6 +250,41 @@ theorem C09_res_call_invariant (cfg : Cfg) (d : Bytes) (c : Conn) (hs : (d.lengt
 
 example : outBufLen ({} : Conn) ≤ (({} : Cfg).fieldLimitHard) ∧ OwedPosO ({} : Conn) := by
   refine ⟨by decide, ⟨fun e => ?_, fun e => ?_⟩⟩ <;> exact absurd e (by decide)
+
+/-- **C09 (DATA means the whole chunk was consumed), request direction, no outside fact**: `ClAtDecision` is discharged from the state invariant
+    `ClOK` - every stored transaction whose request body is identity-coded has a non-negative Content-Length (`Lemmas/ClInv.lean`: the framing
+    function yields identity coding only together with a parsed, non-negative length, and nothing else writes those two fields). -/
+theorem C09_req_call_data_means_consumed_closed (cfg : Cfg) (d : Bytes) (c : Conn) (hs : (d.length : Int) < 18446744073709551616)
+    (hb : inBufLen c ≤ cfg.fieldLimitHard) (h0 : OwedPos c) (hcl : ClOK c)
+    (hdata : (reqData cfg (some d) d.length c).2 = STREAM_DATA) :
+    (reqData cfg (some d) d.length c).1.inn.read = (reqData cfg (some d) d.length c).1.inn.len :=
+  reqData_data_consumed_inv' cfg d c hs hb h0 hcl hdata
+
+/-- **C09 over whole call histories (forall byte streams, chunkings, interleavings and callback return values)**: take ANY list of calls on a
+    freshly created connection parser - request chunks and response chunks in any interleaving, htp_connp_open, htp_connp_req_close,
+    htp_connp_close, htp_connp_tx_freed, any configuration, any callback policy (the policy is part of the state) - and any prefix of it that is
+    followed by a data call: if that call returns HTP_STREAM_DATA, its read cursor stands at the end of the chunk offered. The only hypothesis is
+    that each chunk is shorter than 2^64 bytes. Proof: the combined invariant `HistInv` (both line buffers within the hard limit, the counted body
+    states of both directions still owing bytes, `ClOK`) holds for the fresh parser and is kept by every call of EITHER direction
+    (`Lemmas/HistoryFrames.lean`: what the response side may do to the request side's view and vice versa; `Lemmas/HistoryNull.lean`: the NULL
+    chunk of a close; `Lemmas/History.lean`: induction over the call list). Stream gaps are not among the calls. -/
+theorem C09_history_data_means_consumed (cfg : Cfg) (calls : List Call) (hsz : SizesOK calls) :
+    (∀ pre d, pre ++ [.req d] <+: calls → (reqData cfg (some d) d.length (runCalls cfg {} pre)).2 = STREAM_DATA →
+      (reqData cfg (some d) d.length (runCalls cfg {} pre)).1.inn.read = (reqData cfg (some d) d.length (runCalls cfg {} pre)).1.inn.len) ∧
+    (∀ pre d, pre ++ [.res d] <+: calls → (resData cfg (some d) d.length (runCalls cfg {} pre)).2 = STREAM_DATA →
+      (resData cfg (some d) d.length (runCalls cfg {} pre)).1.out.read = (resData cfg (some d) d.length (runCalls cfg {} pre)).1.out.len) :=
+  history_data_means_consumed cfg {} calls (histInv_fresh cfg) hsz
+
+/-- the invariant itself, after every history on a fresh connection parser -/
+theorem C09_history_invariant (cfg : Cfg) (calls : List Call) (hsz : SizesOK calls) : HistInv cfg (runCalls cfg {} calls) :=
+  history_inv cfg {} calls (histInv_fresh cfg) hsz
+
+/-- non-vacuity: an interleaved history whose two data calls return HTP_STREAM_DATA -/
+example :
+    let calls : List Call := [.open, .req (b!"GET /"), .res (b!"HTTP/1.1 2")]
+    (reqData {} (some (b!"GET /")) 5 (runCalls {} {} [.open])).2 = STREAM_DATA ∧
+    (resData {} (some (b!"HTTP/1.1 2")) 10 (runCalls {} {} [.open, .req (b!"GET /")])).2 = STREAM_DATA ∧
+    (runCalls {} {} calls).inn.read = 5 ∧ (runCalls {} {} calls).out.read = 10 := by decide
 
 /-- **C09 (the constants are the reviewed ones)**: every constant the translator reads from the current source - among them the stream state codes -
     equals its reviewed snapshot (lean/HtpModel/Pinned); the model follows a regenerated constant, so this is what notices a changed one -/
